@@ -13,3 +13,4 @@ import OtterVerif.Props.C12
 import OtterVerif.Props.C19
 import OtterVerif.Props.C20
 import OtterVerif.Props.C18
+import OtterVerif.Props.C13
